@@ -19,6 +19,9 @@ except ImportError:  # plain concrete replays without crosshair installed
     _CONTROL = ()
 
 
+TASK_FAULTS = []
+
+
 class Deadlock(BaseException):
     """BaseException: kopf's `except Exception` must not swallow harness verdicts."""
 
@@ -84,6 +87,10 @@ class SymLoop(asyncio.AbstractEventLoop):
         try:
             return await coro
         except BaseException as e:
+            if isinstance(e, (TypeError, AttributeError, NameError)):
+                # a task dying of a programming error is either a fault of the model (stub/shim) or of the code under
+                # test: counted and reported by the driver, never silently swallowed
+                TASK_FAULTS.append(f'{type(e).__name__}: {e}'[:200])
             if _CONTROL and isinstance(e, _CONTROL) and self._abort is None:
                 self._abort = e
             if isinstance(e, (Livelock, Diverged)) and self._abort is None:
